@@ -21,37 +21,44 @@ def _retag(ps, prop):
 
 
 def _c02(tier, seed):
-    ps = families.c02(tier, seed)
+    ps = families.c02(tier, seed) + families.wide("C02")
+    ps = ps + families.own_placements("C02", ps)
     return ps + families.canaries_eq(ps)
 
 
 def _c03(tier, seed):
-    ps = families.c03(tier, seed)
+    ps = families.c03(tier, seed) + families.wide("C03")
+    ps = ps + families.own_placements("C03", ps)
     return ps + families.canaries_ord(ps)
 
 
 def _c05(tier, seed):
-    ps = families.c05(tier, seed)
+    ps = families.c05(tier, seed) + families.wide("C05")
+    ps = ps + families.own_placements("C05", ps)
     return ps + families.canaries_hash(ps)
 
 
 def _c07(tier, seed):
-    ps = families.c07(tier, seed)
+    ps = families.c07(tier, seed) + families.wide("C07")
+    ps = ps + families.own_placements("C07", ps)
     return ps + families.canaries_clone(ps)
 
 
 def _c08(tier, seed):
     ps = families.c08(tier, seed)
+    ps = ps + families.own_placements("C08", ps, 6)
     return ps + families.canaries_default(ps)
 
 
 def _c09(tier, seed):
-    ps = families.c09(tier, seed)
+    ps = families.c09(tier, seed) + families.wide("C09")
+    ps = ps + families.own_placements("C09", ps)
     return ps + families.canaries_deref(ps)
 
 
 def _c10(tier, seed):
-    ps = families.c10(tier, seed)
+    ps = families.c10(tier, seed) + families.wide("C10")
+    ps = ps + families.own_placements("C10", ps)
     return ps + families.canaries_into(ps)
 
 
@@ -61,7 +68,8 @@ def _c04(tier, seed):
 
 
 def _c06(tier, seed):
-    ps = families.c06(tier, seed)
+    ps = families.c06(tier, seed) + families.wide("C06")
+    ps = ps + families.own_placements("C06", ps)
     return ps + families.canaries_debug(ps)
 
 
@@ -77,8 +85,8 @@ def _c17(prop, tier, seed, args):
 
 PROPS = {
     "C14": {
-        "family": lambda tier, seed: families.c14(tier, seed) + _retag(families.canaries_eq([p for p in families.c14(tier, seed) if "PartialEq" in p.focus][:8]), "C14"),
-        "bounds": {"quick": "per trait one fixed meaning x every documented spelling: ignore (4 forms) x method (4 forms) [x rank (4 forms, negative/positive)] for PartialEq (carrier PartialEq/Eq), Ord/PartialOrd (3 carriers), Hash; Clone/Into method forms; Default value (5) x new (4) forms + type-level (4); Debug type name (9) x key (7) forms (half), name/named_field bool forms, variant name forms; joined vs split #[educe] attributes, trait order, parameter order",
+        "family": lambda tier, seed: families.c14(tier, seed) + families.c14_placements(tier) + _retag(families.canaries_eq([p for p in families.c14(tier, seed) if "PartialEq" in p.focus][:8]), "C14"),
+        "bounds": {"quick": "per trait one fixed meaning x every documented spelling: ignore (4 forms) x method (4 forms) [x rank (4 forms, negative/positive)] for PartialEq (carrier PartialEq/Eq), Ord/PartialOrd (3 carriers), Hash; Clone/Into method forms; Default value (5) x new (4) forms + type-level (4); Debug type name (9) x key (7) forms (half), name/named_field bool forms, variant name forms; joined vs split #[educe] attributes, trait order, parameter order; placement family: for ~8 programs of each of C02/C03/C05/C06/C07/C08/C09/C10 the contracted trait's field attribute next to another educed trait's entry, in the same list before/after it or in a separate #[educe] attribute before/after it",
                    "thorough": "all Debug type x key combinations"},
         "trusted": [], "assumptions": ["weaker than stated: behavioural equality of every spelling under one shared contract, not token identity of the generated code; `bound` spellings (no run-time effect) are not covered"],
         "explanation": "every member of a spelling group satisfies the single contract generated from the group's meaning; a mis-parsed spelling falls back to default behaviour and fails its postcondition",
